@@ -195,4 +195,15 @@ var table = []Control{
 	{Name: "cmd4-short-token-skipped", Rule: "CMD-4", File: fCmds,
 		Old: "\t\tif arg == \"--\" {\n\t\t\treturn -1\n\t\t}\n\t\tfor _, searchArg := range searchSet {",
 		New: "\t\tif arg == \"--\" {\n\t\t\treturn -1\n\t\t}\n\t\tif i > 0 && len(arg) == 2 {\n\t\t\tcontinue\n\t\t}\n\t\tfor _, searchArg := range searchSet {"},
+	// ---- obligations added after the fifth (held-out) seeding round
+	{Name: "mat3-scan-steps-over-dashdash", Rule: "MAT-3", File: fOption,
+		Old: "\t\tcase arg == \"-\":\n\t\t\tidx++\n\t\tcase arg == \"--\":\n\t\t\treturn o.theOne.ValueSetFromEnv, args\n",
+		New: "\t\tcase arg == \"-\" || arg == \"--\":\n\t\t\tidx++\n"},
+	{Name: "cmd5-first-item-only-when-alone", Rule: "CMD-5", File: fCmds,
+		Old: "func (c *Cmd) isFirstItemAmong(args []string, searchSet []string) bool {\n\tif len(args) == 0 {", New: "func (c *Cmd) isFirstItemAmong(args []string, searchSet []string) bool {\n\tif len(args) != 1 {"},
+	{Name: "lex6-arg-class-admits-dash", Rule: "LEX-6", File: fLexer,
+		Old: "\treturn isUppercase(c) || isDigit(c) || c == '_'\n", New: "\treturn isUppercase(c) || isDigit(c) || c == '_' || c == '-'\n"},
+	{Name: "lex4-optvalue-text-restricted", Rule: "LEX-4", File: fLexer,
+		Old: "\t\t\t\tclosed = usage[pos] == '>'\n\t\t\t\tif closed {\n\t\t\t\t\tbreak\n\t\t\t\t}\n",
+		New: "\t\t\t\tclosed = usage[pos] == '>'\n\t\t\t\tif closed || usage[pos] == ' ' {\n\t\t\t\t\tbreak\n\t\t\t\t}\n"},
 }
